@@ -36,7 +36,7 @@ CHECKS = {
    note="Bounded architecture sizes; exact dependency measured with all-ones weights. " + TRUSTED),
 
  "C07": dict(
-   technique="TLA+ specification of the coupling index book-keeping (spec/Coupling.tla) exhaustively model-checked by TLC over all masks; every enumerated state replayed on the seven real coupling classes (bit-level identity check, Jacobian pattern vs the specification's dependency relation, round trip); mask values are rationals (units of 1/2), box-bounded elementwise transforms with the outside-the-box outcome; spec/Assembly.tla (construction loop of SimpleRealNVP) replayed on the real constructor",
+   technique="TLA+ specification of the coupling index book-keeping (spec/Coupling.tla) exhaustively model-checked by TLC over all masks; every enumerated state replayed on the seven real coupling classes (bit-level identity check, Jacobian pattern vs the specification's dependency relation, round trip); mask values are rationals (units of 1/2), box-bounded elementwise transforms with the outside-the-box outcome; spec/Assembly.tla (construction loop of SimpleRealNVP) replayed on the real constructor; TLA+ specification of the conditioner networks (spec/Nets.tla) model-checked by TLC and replayed on the real networks (a conditioner that mixes rows in evaluation mode)",
    text="TLC enumerates every mask with values in {-1,0,1,2} (both sides non-empty) x 2-D/image layout x unconditional transform x direction and proves the split / conditioner-input / write-back properties. Each state is replayed on the real classes with a conditioner that mixes all identity elements, so the measured Jacobian pattern must equal the specification's relation; identity features are compared bit for bit on inputs containing -0.0; library conditioners are checked for the subset relation.",
    design_ref="DESIGN.md section 4, C07",
    note="Feature counts 2..4 (5 thorough), images of 1x2 pixels; dependency measured by autograd (perturbation for UMNN). " + TRUSTED),
